@@ -11,12 +11,12 @@ cd "$W" || exit 2
 PKGS=$(grep '^+++ b/' "$OUT/patch.diff" | sed 's#^+++ b/##; s#/[^/]*$##; s#^[^/]*\.go$#.#' | sort -u | sed 's#^#./#')
 echo "packages: $PKGS"
 go test -count=1 $PKGS 2>&1 | grep -E "^(ok|FAIL|---)" | sed "s/[0-9.]*s$//; s/([0-9.]*s)//" | sort > /tmp/confirm-before.txt
-cp "$DEMO" "$TARGET"
+mkdir -p "$(dirname "$TARGET")"; cp "$DEMO" "$TARGET"
 echo "== demo WITHOUT patch"; go test -count=1 "$@" 2>&1 | tail -4
 rm "$TARGET"
 git apply "$OUT/patch.diff" || { echo "PATCH DOES NOT APPLY"; exit 1; }
 go build ./... || { echo "DOES NOT BUILD"; exit 1; }
 go test -count=1 $PKGS 2>&1 | grep -E "^(ok|FAIL|---)" | sed "s/[0-9.]*s$//; s/([0-9.]*s)//" | sort > /tmp/confirm-after.txt
 if diff /tmp/confirm-before.txt /tmp/confirm-after.txt >/dev/null; then echo "existing tests: same results before/after"; else echo "EXISTING TESTS DIFFER:"; diff /tmp/confirm-before.txt /tmp/confirm-after.txt | head; fi
-cp "$DEMO" "$TARGET"
+mkdir -p "$(dirname "$TARGET")"; cp "$DEMO" "$TARGET"
 echo "== demo WITH patch"; go test -count=1 "$@" 2>&1 | grep -E "VIOLAT|^(ok|FAIL|---)" | head -8
